@@ -20,21 +20,6 @@ import (
 	"connectrpc.com/conformance/internal/verifkit"
 )
 
-type vfCollector struct {
-	mu     sync.Mutex
-	traces []Trace
-}
-
-func (c *vfCollector) Complete(t Trace) {
-	c.mu.Lock()
-	c.traces = append(c.traces, t)
-	c.mu.Unlock()
-}
-func (c *vfCollector) Traces() []Trace {
-	c.mu.Lock()
-	defer c.mu.Unlock()
-	return append([]Trace(nil), c.traces...)
-}
 
 type vfEnv struct {
 	Flags    byte
@@ -219,12 +204,6 @@ func vfSigEqual(got, want []string, wildcardAt int) bool {
 	return false
 }
 
-func vfNewBuilder(collector Collector, client bool) *builder {
-	req := httptest.NewRequest("POST", "/svc/Method", nil)
-	req.Header.Set("X-Test-Case-Name", "Suite/T")
-	b, _ := newBuilder(req, client, collector)
-	return b
-}
 
 func vfClassify(b *vfBody, cut int) string {
 	side := "response"
